@@ -24,10 +24,10 @@ REL = {"S-C01": ["C01", "C08", "C03", "C09"], "S-C02": ["C02", "C01", "C03", "C0
        "S5-C06": ["C06", "C18"], "S5-C07": ["C07", "C05", "C06"], "S5-C08": ["C08", "C17"], "S5-C09": ["C09", "C15"], "S5-C10": ["C10"], "S5-C11": ["C11", "C13"],
        "S5-C12": ["C12"], "S5-C13": ["C13"], "S5-C14": ["C14", "C18"], "S5-C15": ["C15", "C09"], "S5-C16": ["C16", "C09"], "S5-C17": ["C17", "C08"],
        "S5-C18": ["C18"], "S5-C19": ["C19"], "S5-C20": ["C20", "C19"],
-       "S6-C01": ["C01", "C02", "C08"], "S6-C02": ["C02", "C01"], "S6-C03": ["C03", "C01"], "S6-C04": ["C04", "C07"], "S6-C05": ["C05", "C06"],
+       "S6-C01": ["C01", "C02", "C08"], "S6-C02": ["C02", "C01"], "S6-C03": ["C03", "C01", "C02"], "S6-C04": ["C04", "C07"], "S6-C05": ["C05", "C06"],
        "S6-C06": ["C06", "C05"], "S6-C07": ["C07", "C01", "C02"], "S6-C08": ["C08", "C09"], "S6-C09": ["C09"], "S6-C10": ["C10"], "S6-C11": ["C11"],
-       "S6-C12": ["C12"], "S6-C13": ["C13"], "S6-C14": ["C14"], "S6-C15": ["C15", "C09"], "S6-C16": ["C16"], "S6-C17": ["C17"], "S6-C18": ["C18"],
-       "S6-C19": ["C19"], "S6-C20": ["C20"]}
+       "S6-C12": ["C12", "C09", "C08"], "S6-C13": ["C13"], "S6-C14": ["C14"], "S6-C15": ["C15", "C09"], "S6-C16": ["C16", "C09"], "S6-C17": ["C17", "C08"], "S6-C18": ["C18"],
+       "S6-C19": ["C19"], "S6-C20": ["C20", "C19"]}
 only = sys.argv[1:] 
 out = {}
 mp = VERIF / "seeded" / "MATRIX.json"
